@@ -173,6 +173,9 @@ class Gen:
             h = (cur[w] - lim) if direction == "rm" else (lim - cur[w])
             if h <= 0 or self.rng.random() < zero_p:
                 v = 0.0 if self.rng.random() < 0.9 else -0.0
+            elif self.regime == "milli" and direction == "rm" and h > 0.01 and self.rng.random() < 0.15:
+                # leave a crumb below the printed resolution behind (0.001 ... 0.004 uL above the limit)
+                v = snap_down(h - self.rng.choice([0.001, 0.002, 0.004]), self.regime)
             elif self.rng.random() < 0.1:
                 # land exactly on the limit *as computed by subtraction*, deliberately unverified: whether the
                 # float sum/difference then rounds onto or one ulp past the limit is for the library to decide
@@ -397,6 +400,8 @@ class Gen:
             h = min(rm_budget[s], add_budget[d], cap)
             if allzero or h <= 0 or rng.random() < 0.12:
                 v = 0.0
+            elif self.regime == "milli" and h > 0.01 and h == rm_budget[s] and rng.random() < 0.15:
+                v = snap_down(h - rng.choice([0.001, 0.002, 0.004]), self.regime)  # leaves a crumb in the source well
             elif rng.random() < 0.08:
                 v = h if self.regime == "free" else snap_down(h, self.regime)  # the float headroom, unverified (see fit_seq)
             else:
